@@ -4,7 +4,8 @@ A request (JSON, exact rationals) says *what* is rasterised; the optional keys b
 objects are made and handed over (HISTORIES.md section 2).  None of them changes what the property pins, so the
 model never sees them: every construction path must give the raster of the plain request.
 
-  template   time_via / freq_via : "array" (create_*_dim_from_array, no step attribute - the default),
+  template   time_dtype / freq_dtype : "int64" | "int32" - integral coordinates stored as integers (an integer index)
+             time_via / freq_via : "array" (create_*_dim_from_array, no step attribute - the default),
                                    "array_step" (the same with the axis step stored in the 'step' attribute),
                                    "range" (create_time_range / create_frequency_range from <axis>_range =
                                    [start, stop, step] or {"samplerate": n}: numpy.arange inside, 'step' attribute),
@@ -73,6 +74,9 @@ def axis_variable(inp, which):
     import numpy as np
     from soundevent import arrays
     vals = np.array(floats(inp[which]), dtype=float)
+    cdt = inp.get(which + "_dtype")          # "int64" / "int32": integral coordinates stored as integers
+    if cdt and bool((vals == np.round(vals)).all()):
+        vals = vals.astype(cdt)
     via = inp.get(which + "_via") or "array"
     from_array = arrays.create_time_dim_from_array if which == "time" else arrays.create_frequency_dim_from_array
     if via == "plain":
@@ -144,24 +148,21 @@ def template(inp):
 def _padded(inp, which, var):
     import numpy as np
     import xarray as xr
-    vals = np.asarray(var.values if hasattr(var, "values") else var, dtype=float)
-    step = (vals[1] - vals[0]) if len(vals) > 1 else 1.0
-    more = np.concatenate([[vals[0] - 2 * step, vals[0] - step], vals, [vals[-1] + step]])
+    vals = np.asarray(var.values if hasattr(var, "values") else var)
+    step = (vals[1] - vals[0]) if len(vals) > 1 else vals.dtype.type(1)
+    more = np.concatenate([[vals[0] - 2 * step, vals[0] - step], vals, [vals[-1] + step]]).astype(vals.dtype)
     if isinstance(var, xr.Variable):
         return xr.Variable(dims=var.dims, data=more, attrs=dict(var.attrs)), 2
     return more, 2
 
 
 def template_snapshot(arr):
-    """everything of the template a call could change: dims, contents, every coordinate with its attributes"""
+    """what of the template determines the answer of a later call: the dimensions and the time / frequency
+    coordinates (the contents and the attributes are not pinned by the property and are left alone)"""
     import numpy as np
-    coords = {}
-    for k in sorted(map(str, arr.coords)):
-        c = arr.coords[k]
-        coords[k] = [list(map(str, c.dims)), np.asarray(c.values).tolist() if np.asarray(c.values).ndim else str(c.values),
-                     sorted((str(a), repr(b)) for a, b in c.attrs.items())]
-    return {"dims": [str(d) for d in arr.dims], "dtype": str(arr.dtype), "data": np.asarray(arr.values).tolist(),
-            "coords": coords, "attrs": sorted((str(a), repr(b)) for a, b in arr.attrs.items()), "name": repr(arr.name)}
+    return {"dims": [str(getattr(d, "value", d)) for d in arr.dims], "shape": list(arr.shape),
+            "time": np.asarray(arr.coords["time"].values).tolist(),
+            "frequency": np.asarray(arr.coords["frequency"].values).tolist()}
 
 
 # ------------------------------------------------------------------ geometries
